@@ -10,5 +10,31 @@ CHECKS = {
    note=("Trusted: TLC, the harness' single-step driver (three instructions at a reserved spot of bank 2) and the ROM image files "
          "as reference for ROM reads. Sampling, not proof, for the real 16K pages; exhaustive only in the 1-byte-page model.")),
 }
+CHECKS.update({
+ "C01": dict(
+   category="model_checking", design_ref="4 (C01/C03)", technique="TLC trace validation of recorded emulate() calls against a TLA+ transcription of the NMOS Z80",
+   text=("Z80.tla defines one emulate() call (optional acknowledge + one instruction or prefix fragment) for all seven opcode pages: "
+         "registers, all flag bits, MEMPTR, Q, R, IFF, IM and the ordered bus operations. The harness drives the real Z80 through a "
+         "recording bus from boundary-biased random states for every one of the 1792 encodings (plus chained calls) and Z80Trace.tla "
+         "requires each recorded post-state and data-operation list to be one of the outcomes the spec allows. A self-test corrupts "
+         "logged fields and requires rejection."),
+   note=("Trusted: TLC, my transcription of the documented Z80 (cross-checked: the pinned z80full/ccf/memptr tapes pass on the same tree), "
+         "the recording bus. Sampling of operand space, exhaustive over encodings; Q after repeating block iterations not judged.")),
+ "C02": dict(
+   category="model_checking", design_ref="4 (C02)", technique="TLC exhaustive model of interrupt sequencing + TLC trace validation of an exhaustive control matrix on the real CPU",
+   text=("Z80MC runs the spec CPU on three 16-byte ROMs under every schedule of INT/NMI levels and bus bytes (depth 14 quick / 22 thorough) and "
+         "checks the statement clause by clause (acceptance only with IFF1 and not after EI/DI/prefix, flip-flops after INT/NMI, HALT release, "
+         "pushed address, targets, 13/19/11 T, RETN/RETI) in terms of the fetched instruction stream. The real CPU is then run through the "
+         "exhaustive matrix IFF1 x IFF2 x IM x halted x EI-shadow x pending prefix x INT x NMI x 25 instruction classes with chained calls and "
+         "every call is validated against the same Outcomes() by Z80Trace."),
+   note="Trusted: TLC, Z80.tla. NMI directly after EI/DI is left open as the statement does. ROMs are hand-picked, schedules exhaustive."),
+ "C03": dict(
+   category="model_checking", design_ref="4 (C01/C03)", technique="TLC trace validation of recorded bus-cycle lists against the TLA+ Z80",
+   text=("Same events as C01 with INT/NMI lines driven at random: the recorded list of bus cycles (kind, address, T-states; internal delays one "
+         "T-state at a time with the documented address; port cycles; interrupt entry 13/19/11 T) must equal the spec's list for every call, "
+         "taken/not-taken, every repeat iteration and every prefix form."),
+   note="Trusted: TLC, Z80.tla's cycle lists (transcribed from the documented machine cycles / contention tables). Sampling over operands."),
+})
 NOT_YET = {}
+
 HOOK_COMMITS = ["71990aa"]
